@@ -446,4 +446,9 @@ end
 /-- `BaseSpec.validate_schema` does not raise: no ValidationError and no TypeError. -/
 def accepts (s : Schema) (j : JVal) : Bool := (validate s j).clean
 
+/-- `BaseSpecList.__init__` (TaskSpecList, WorkflowSpecList, ActionSpecList): the members of the
+    section that get a specification object: `for k, v in data.items(): if k != 'version': …`. -/
+def specListMembers (kvs : List (Key × JVal)) : List (Key × JVal) :=
+  kvs.filter (fun kv => kv.1 != Key.s "version")
+
 end Mistral.Schema
